@@ -352,7 +352,10 @@ fn c03_nested(g: &mut Game, depth: u32, acc: &mut Acc, trail: &mut Vec<String>, 
     }
 }
 
-pub fn c03_visit_depth(ctx: &StateCtx, acc: &mut Acc, nest: u32) {
+pub fn c03_visit_depth(ctx: &StateCtx, acc: &mut Acc, nest_param: u32) {
+    // thorough tier (nesting depth 3): the full depth on every 8th state of each space, depth 2 on the others - the
+    // spaces are ~60 times larger than the quick ones and depth 3 costs ~20 times depth 2
+    let nest = if nest_param >= 3 && ctx.index % 8 != 0 { 2 } else { nest_param };
     for (how, mut g) in games(ctx, acc, true) {
         // (c) pure queries
         let r = guarded(|| {
@@ -398,7 +401,7 @@ pub fn c03_visit_depth(ctx: &StateCtx, acc: &mut Acc, nest: u32) {
             let unchecked0: Vec<String> = list.iter().map(|m| m.uci_notation()).collect();
             // thorough tier: the spaces are ~60 times larger and nesting depth 3 already dominates; the child-query
             // excursions run on every 16th state there (all of them in the quick tier)
-            let do_excursions = nest <= 2 || ctx.index % 16 == 0;
+            let do_excursions = nest_param <= 2 || ctx.index % 16 == 0;
             for m in list.iter().filter(|_| do_excursions) {
                 for child_query in [false, true] {
                     g.push(*m);
